@@ -118,7 +118,9 @@ def random_edit(st, rng):
             imp.append(cand)
         return "import-toggle %s %s" % (d, cand)
     if k == "pack":
-        s = rng.choice(["t", "u", "w"])
+        # a pack belongs to ONE primary dictionary (its checksum is seeded with the primary's): only the
+        # schemas of dictionary `t` get packs
+        s = rng.choice(["t", "u"])
         pk = st["schemas"][s].setdefault("packs", [])
         cand = rng.choice(["tp", "tx"])
         if cand in pk:
@@ -377,6 +379,10 @@ def run(ctx):
         "(deleting a .dict.yaml is outside the edit alphabet: the old table stays in use - C12_delete_dict_keeps_table_witness)",
         "schemas with different compiled configs use different prism names (otherwise every deployment rebuilds the shared "
         "prism - C12_noop_shared_prism_witness; required by librime's documentation, not a finding)",
+        "a pack is used with one primary dictionary only: the pack table's checksum is seeded with the primary's "
+        "dict_file_checksum, so a pack shared by two dictionaries is rebuilt by every deployment, alternately (observed on "
+        "the real code - history [..., 'pack-toggle w tp', ..., 'noop'] logs `pack tp rebuild=1` twice - and in the model alike; "
+        "same class as the shared prism name, a workspace error, not a finding)",
         "the resources a compiled config depends on are default, default.custom, <x>.custom, <x>.schema (generated workspaces "
         "contain no further __include / import_preset); validated against the __build_info/timestamps keys",
     ]
